@@ -676,7 +676,17 @@ func (g *gen) genBlock(bi int) {
 	if g.cfg.roRate > 0 {
 		for pos := 0; pos <= len(blk.Txs); pos++ {
 			if r.Chance(g.cfg.roRate) {
-				blk.ReadOnly = append(blk.ReadOnly, g.genReadOnly(bi, pos, h))
+				ro := g.genReadOnly(bi, pos, h)
+				if (ro.Kind == "checktx" || ro.Kind == "simulate") && pos < len(blk.Txs) && r.Chance(0.3) {
+					// the very transaction a later position of this block delivers (whatever is wrong with it) is
+					// checked or simulated first, as a mempool or a wallet would
+					later := blk.Txs[pos+r.Intn(len(blk.Txs)-pos)]
+					if later.Kind != "raw" && later.Kind != "skip" && later.Kind != "replay" && later.RawMut == "" {
+						cp := later
+						ro.Tx = &cp
+					}
+				}
+				blk.ReadOnly = append(blk.ReadOnly, ro)
 			}
 		}
 	}
@@ -967,7 +977,7 @@ func (g *gen) genTx(bi int) {
 		s.Amount = amt.String()
 	case "change_param":
 		k := AllParamKeys[r.Intn(len(AllParamKeys))]
-		if k == "pos/StakeDenom" && g.prop == "C11" && r.Chance(0.5) {
+		if k == "pos/StakeDenom" && (g.prop == "C11" || g.prop == "C10") && r.Chance(0.5) {
 			// only for the no-trace property: after such a change stakes move a denomination of their own, unstaking
 			// validators cannot be paid back (the chain halts at the first maturity) and the model stops following
 		} else if k == "pos/StakeDenom" || k == "pos/SignedBlocksWindow" || k == "auth/TxSigLimit" {
@@ -1262,7 +1272,7 @@ func (g *gen) paramValue(k string) string {
 	case "pos/ProposerRewardPercentage":
 		return ParamJSON(int8(r.Range(0, 100)))
 	case "pos/StakeDenom":
-		if g.prop == "C11" {
+		if g.prop == "C11" || g.prop == "C10" {
 			return ParamJSON([]string{ThirdDenom, ThirdDenom, DustDenom, sdk.DefaultStakeDenom}[r.Intn(4)])
 		}
 		return ParamJSON(sdk.DefaultStakeDenom)
@@ -1335,6 +1345,10 @@ func (g *gen) genReadOnly(bi, pos int, h int64) ReadOnly {
 		}
 		if r.Chance(0.15) {
 			s = TxSpec{Kind: "unjail", Acct: g.pickAcct()}
+		}
+		if vs := g.valsWith(func(v *MVal) bool { return v.Status == StStaked }); len(vs) > 0 && r.Chance(0.12) {
+			// a validator's begin-unstake, only simulated / checked
+			s = TxSpec{Kind: "unstake", Acct: vs[r.Intn(len(vs))]}
 		}
 		if r.Chance(0.12) {
 			// a DAO action that is only simulated / checked: whatever it mints, burns or moves is discarded
